@@ -70,7 +70,7 @@ template <typename T> int go(int argc, char** argv) {
         case util::dtype::int32: case util::dtype::uint32: case util::dtype::float32: isz = 4; break; default: isz = 8; }
       printf("%s\"", i ? ", " : ""); for (int64_t k = 0; k < len * isz; k++) printf("%02x", ((uint8_t*)p.get())[k]); printf("\"");
     }
-    printf("]}\n");
+    printf("], \"inbytes\": \""); for (size_t i = 0; i < n; i++) printf("%02x", ((uint8_t*)buf.get())[i]); printf("\"}\n");
   } catch (std::exception& e) { std::string w = e.what(); for (auto& ch : w) if (ch == '\n' || ch == '"') ch = ' '; printf("{\"compile_error\": \"%s\"}\n", w.c_str()); }
   return 0;
 }
@@ -368,6 +368,9 @@ def templates(W):
                   paused=['input s output o int32 output q uint8 s i-> o pause s h-> o s !h-> o pause s B-> q s pos']))
     T.append(Tmpl('read-direct-repeated', 'input s output o int32 3 s #!h-> o s pos', 0, lambda s: [], lambda s: [(z3.BoolVal(True), [BVc(6)])], nbytes=10, inpos=6,
                   outs=lambda s: [[z3.SignExt(16, z3.Concat(by[2 * i], by[2 * i + 1])) for i in range(3)]]))
+    for code, nb_, signed in (('I', 4, False), ('i', 4, True), ('H', 2, False), ('q', 8, True)):
+        T.append(Tmpl('read-direct-repeated-' + code, 'input s output o int64 2 s #!%s-> o s pos' % code, 0, lambda s: [], (lambda nb_=nb_: lambda s: [(z3.BoolVal(True), [BVc(2 * nb_)])])(), nbytes=16, inpos=2 * nb_,
+                      outs=(lambda nb_=nb_, signed=signed: lambda s: [[(z3.SignExt if signed else z3.ZeroExt)(64 - 8 * nb_, z3.Concat(*by[i * nb_:(i + 1) * nb_])) if nb_ < 8 else z3.Concat(*by[i * nb_:(i + 1) * nb_]) for i in range(2)]])()))
     T.append(Tmpl('rewind', 'output o int32 1 o <- stack 2 o <- stack 3 o <- stack 2 o rewind o len', 0, lambda s: [], lambda s: [(z3.BoolVal(True), [BVc(1)])],
                   outs=lambda s: [[z3.BitVecVal(1, 32)]]))
     T.append(Tmpl('again-halt', 'begin 1- dup 0= if halt then again', 1, lambda s: [s[0] >= 1, s[0] <= 3], lambda s: [(s[0] == n, [BVc(0)], 'user_halt') for n in (1, 2, 3)]))
@@ -467,9 +470,9 @@ def h_prog(name, T, ci):
             if out.get('status') != 'ok':
                 bad = bad or '%s of "%s": native interpreter %s %s' % (label, full, out.get('status'), out.get('log', ''))
             elif out.get('err') != werr or out.get('stack') != wstack or (errname == 'none' and not out.get('done')) or (tm.inpos is not None and out.get('inpos') != [tm.inpos]) \
-                    or (wouts and out.get('outputs') != wout):
+                    or (wouts and out.get('outputs') != wout) or (hexin and out.get('inbytes') != hexin):
                 bad = bad or '%s of "%s"%s: error %s, stack %s, done %s, input position %s, outputs %s; documented: error %s, stack %s%s%s' % (
-                    label, full, ' on input ' + hexin if hexin else '', out.get('err'), out.get('stack'), out.get('done'), out.get('inpos'), out.get('outputs'), werr, wstack,
+                    label, full, ' on input ' + hexin + (' (input afterwards: %s)' % out.get('inbytes') if out.get('inbytes') != hexin else '') if hexin else '', out.get('err'), out.get('stack'), out.get('done'), out.get('inpos'), out.get('outputs'), werr, wstack,
                     ', input position %d' % tm.inpos if tm.inpos is not None else '', ', outputs %s' % wout if wouts else '')
         if bad:
             return True, bad, payload
